@@ -509,6 +509,19 @@ def d6(cx: Cx, ob: Ob) -> None:
                     continue
                 if not (op(ct) == "call" and ct[1] == ("func", f"{U}.handle_header") and len(ct[2]) == 1):
                     ob.violate(h.qualname, where(h, line), f"{fw}: the content type is `{show(ct)[:50]}`, not handle_header(<Accept header>)", detail=f"{fw}:negotiation")
+                else:
+                    harg = ct[2][0]
+                    raw = op(harg) == "param" or any(is_const(y) and isinstance(y[1], str) and y[1].lower() == "accept" for y in subterms(harg))
+                    if any((op(y) == "attr" and y[2] in ("accept_mimetypes", "best", "best_match")) or (op(y) == "ext" and "accept_mimetypes" in y[1]) for y in subterms(harg)):
+                        ob.violate(
+                            h.qualname,
+                            where(h, line),
+                            f"{fw}: handle_header is given `{show(harg)[:50]}`, the framework's own pick of the single highest-q type, not the Accept header: when that type is unsupported the client's best SUPPORTED type is never considered, and the two frameworks disagree",
+                            witness="Accept: text/html, application/json;q=0.9 -> XML default instead of JSON",
+                            detail=f"{fw}:pre-negotiated",
+                        )
+                    elif not raw:
+                        ob.undecide(f"{fw}: argument `{show(harg)[:50]}` of handle_header not recognised as the raw Accept header")
                 q = x[1][1]
                 if not (op(q) == "call" and callee_name(q) == "query" and dict(q[3]).get("processor") is not None):
                     ob.violate(h.qualname, where(h, line), f"{fw}: the query is not run as graph.query(sparql, processor=processor)", detail=f"{fw}:query")
@@ -578,3 +591,81 @@ def d8(cx: Cx, ob: Ob) -> None:
     from ..rules import class_state_closure
 
     class_state_closure(cx, ob, f"{A}.MappingServiceGraph")
+
+
+@obligation("C18-D9", "VALUES placement: MappingServiceSPARQLProcessor.query evaluates only a query whose algebra went through _optimize_node, unconditionally; _optimize_node swaps the operands of exactly the Join nodes whose second operand is a ToMultiSet (VALUES) and whose first is not, and recurses into every child", floor=2)
+def d9(cx: Cx, ob: Ob) -> None:
+    R = "curies.mapping_service.rdflib_custom"
+    q = cx.fn(f"{R}.MappingServiceSPARQLProcessor.query", ob.id)
+    s = cx.summary(q, ob.id)
+    me = ("param", q.self_name)
+    qp = ("param", q.params[1].name)
+    OPT = ("func", f"{R}._optimize_node")
+    n_eval = 0
+    for t, ctx in s.returns():
+        line = ctx.path.out[2]
+        evals = [x for x in subterms(t) if op(x) == "call" and callee_name(x) == "evalQuery"]
+        if not evals:
+            if any(op(x) == "call" and op(x[1]) == "attr" and x[1][1] == me and x[1][2] == "query" for x in subterms(t)):
+                ob.site(f"{where(q, line)} {q.qualname}", "re-enters query() with the translated query")
+                continue
+            ob.undecide(f"query() returns `{show(t)[:60]}`")
+            continue
+        n_eval += 1
+        ob.site(f"{where(q, line)} {q.qualname}", "evalQuery(...)")
+        stores = [ev for ev in ctx.path.events if ev.kind == "store" and op(ev.a) == "attr" and ev.a[2] == "algebra"]
+        ok = [ev for ev in stores if op(ev.b) == "call" and ev.b[1] == OPT]
+        if not ok:
+            ob.violate(
+                q.qualname,
+                where(q, line),
+                "query() evaluates a query whose algebra did not go through _optimize_node on this path: a VALUES block after the triple pattern is joined in the wrong order and the custom triples() never sees the bound values",
+                witness=" -> ".join(("" if g.b else "not ") + show(g.a)[:50] for g in ctx.guards if g.kind == "guard"),
+                detail="unoptimised-path",
+            )
+            continue
+        # the optimisation itself must not sit under a condition other than the str/Query dispatch
+        for ev in ok:
+            for g in s.must_guards(ev):
+                if not (op(g[0]) == "call" and callee_name(g[0]) == "isinstance"):
+                    ob.violate(q.qualname, where(q, ev.line), f"_optimize_node runs only if `{'' if g[1] else 'not '}{show(g[0])[:50]}`", detail="conditional-optimisation")
+    if n_eval == 0:
+        ob.undecide("query() never calls evalQuery")
+    o = cx.fn(f"{R}._optimize_node", ob.id)
+    os_ = cx.summary(o, ob.id)
+    cv = ("param", o.params[0].name)
+    swaps = [(ev, ctx) for ev, ctx in os_.walk() if ev.kind == "expr" and op(ev.a) == "call" and callee_name(ev.a) == "update" and ev.a[1][1] == cv]
+    ob.site(f"{o.where} {o.qualname}", f"{len(swaps)} swap site(s)")
+    if not swaps:
+        ob.undecide("_optimize_node: swap `comp_value.update(p1=..., p2=...)` not found")
+    for ev, ctx in swaps:
+        kw = dict(ev.a[3])
+        if kw.get("p1") != ("attr", cv, "p2") or kw.get("p2") != ("attr", cv, "p1"):
+            ob.violate(o.qualname, where(o, ev.line), f"_optimize_node does not swap p1 and p2 (`{show(ev.a)[:60]}`)", detail="swap")
+        from ..rules import guard_atoms
+
+        atoms = set(guard_atoms(ctx.guards))
+        name = lambda x: ("attr", x, "name")  # noqa: E731
+        want = {
+            (("cmp", "==", name(cv), ("const", "Join")), True),
+            (("cmp", "==", name(("attr", cv, "p1")), ("const", "ToMultiSet")), False),
+            (("cmp", "==", name(("attr", cv, "p2")), ("const", "ToMultiSet")), True),
+        }
+        if atoms != want:
+            extra = sorted(show(a)[:40] + "=" + str(p) for a, p in atoms - want)
+            missing = sorted(show(a)[:40] + "=" + str(p) for a, p in want - atoms)
+            ob.violate(o.qualname, where(o, ev.line), f"_optimize_node swaps under a different condition (missing {missing}, extra {extra})", detail="swap-condition")
+    rec = [(c, ev, ctx) for c, ev, ctx in os_.calls("_optimize_node") if ctx.loops]
+    if not rec:
+        ob.violate(o.qualname, o.where, "_optimize_node does not recurse into the children of a node: a misplaced VALUES deeper in the algebra stays where it is", detail="no-recursion")
+    for c, ev, ctx in rec[:1]:
+        lp = ctx.loops[-1]
+        if not (op(lp.b) == "call" and callee_name(lp.b) == "values" and lp.b[1][1] == cv):
+            ob.undecide(f"_optimize_node iterates `{show(lp.b)[:40]}`, not comp_value.values()")
+
+
+@obligation("C18-X1", "OWN (shared with C10): the mapping service uses the caller's converter itself - it does not build a private converter over the SAME Record objects (whose tables then lag behind records extended through the original)", floor=6)
+def x1(cx: Cx, ob: Ob) -> None:
+    from .c10 import check_no_aliasing
+
+    check_no_aliasing(cx, ob)
